@@ -168,7 +168,7 @@ func runEngineSelfTests() {
 		}
 	}
 	// E5
-	res := runSharedMapTaint(t, []taintSrc{{"Srv", "conf"}})
+	res := runSharedMapTaint(t, []taintSrc{{Type: "Srv", Field: "conf"}})
 	badSink, goodSink := false, false
 	for _, s := range res.sinks {
 		if s.Parent().Name() == "BadUse" {
